@@ -175,7 +175,7 @@ fn ang4(a: [f64; 4], b: [f64; 4]) -> f64 {
 
 fn sphere<T: Tier + Dom<M = Sh>>(rep: &mut Report) {
     let uq = if rep.quick() { alphabet::uq(0) } else { alphabet::uq(1) };
-    let sub: Vec<_> = uq.iter().step_by(rep.pick(4, 9)).copied().collect();
+    let sub: Vec<_> = uq.iter().step_by(rep.pick(1, 5)).copied().collect();
     let axes = alphabet::uv3(false);
     let cosines: [f64; 10] = [0.96, 0.99, 0.9990, 0.9994, 0.9996, 0.99999, 1.0, -0.9994, -0.9996, -1.0];
     let ts: [f64; 6] = [0.0, 0.125, 0.25, 0.5, 0.75, 1.0];
